@@ -122,7 +122,7 @@ def check_sibling_sig(ctx, R):
         R.ob('SIBLING-SIG', 'streamz.dask.%s.__init__' % name, 'signature', sigc == sigd,
              'constructor signatures differ: core %s vs dask %s' % (sigc, sigd), ctx.where(di, di.node.lineno))
         # the same instance fields are configured from the same parameters
-        fc, fd = _ctor_fields(ci), _ctor_fields(di)
+        fc, fd = _ctor_fields(M, c, ci), _ctor_fields(M, d, di)
         common = {k: v for k, v in fc.items() if k in ('func', 'args', 'kwargs', 'state', 'returns_state', 'with_state')}
         diff = {k: (v, fd.get(k)) for k, v in common.items() if fd.get(k) != v}
         R.ob('SIBLING-SIG', 'streamz.dask.%s.__init__' % name, 'fields', not diff,
@@ -141,12 +141,20 @@ def _ctor_sig(fn):
     return (tuple(pos), tuple(defaults), a.vararg.arg if a.vararg else None, a.kwarg.arg if a.kwarg else None)
 
 
-def _ctor_fields(fn):
+def _ctor_fields(model, cls, fn):
+    """field -> the values it is configured with (one per path), on the constructor's symbolic normal form: helper methods of
+    the class / a private mix-in are spliced, named intermediates substituted, statement order is irrelevant"""
+    from ..symexpr import SymEval
     out = {}
-    for n in own_nodes(fn.node):
-        if isinstance(n, ast.Assign) and self_field(n.targets[0]) and isinstance(n.targets[0], ast.Attribute):
-            out[self_field(n.targets[0])] = src(n.value).replace('core.', '')
-    return out
+    for r in SymEval(model, cls).run(fn):
+        if r.raised:
+            continue
+        last = {}
+        for f, v, s_, l in r.stores:
+            last[f] = src(v).replace('core.', '')
+        for f, v in last.items():
+            out.setdefault(f, set()).add(v)
+    return {f: sorted(v) for f, v in out.items()}
 
 
 def check_registry_and_mro(ctx, R):
